@@ -82,6 +82,7 @@ def standard(prop, tier, mc_jobs, driver, trace_module, trace_cfg, canaries, lev
         if v[0] == 'OK':
             raise MachineryError('binding canary accepted: %s' % desc)
     nviol = 0
+    drift = {}
     rejected = []
     by_id = {tr['id']: tr for tr in traces}
     for tid, (v, clauses) in sorted(ver.items()):
@@ -90,6 +91,9 @@ def standard(prop, tier, mc_jobs, driver, trace_module, trace_cfg, canaries, lev
             rejected.append(tid)
         elif v == 'VIOLATION':
             for c in clauses:
+                if c.startswith('DRIFT'):
+                    drift[c] = drift.get(c, 0) + 1
+                    continue
                 if oc.violation(c, tr.get('cls', 'any'), {'trace_id': tid, 'clauses': clauses, 'cfg': tr.get('cfg')}, tr):
                     nviol += 1
     if rejected:
@@ -121,6 +125,7 @@ def standard(prop, tier, mc_jobs, driver, trace_module, trace_cfg, canaries, lev
         'rule': rule,
         'samples': [_shrink(tr) for tr in traces[:sample_n]],
         'canaries': canary_report,
+        'drift_from_detailed_model': drift,
         'driver_counts': tot,
         'trusted_base': trusted or [],
         'repo': REPO,
